@@ -1,6 +1,7 @@
 """Per-property configuration of ./check (which build configurations run, floors, layers)."""
 
 PROPS = {
+    "C06": dict(configs=["ring", "aws"], floor=5000),
     "C11": dict(configs=["ring", "aws"], floor=500),
     "C14": dict(configs=["ring", "aws"], floor=500),
     "C19": dict(configs=["ring", "aws"], floor=500),
